@@ -266,7 +266,7 @@ func genC11(r *Rng, tier string) *C11Scn {
 		nq = 300 // more distinct nodes visited than any small cache holds
 	}
 	qs := genQueries(r, keys, nq)
-	hot := len(keys) >= 8 && ((huge && r.Chance(0.6)) || (hammer && r.Chance(0.3)) || r.Chance(0.04))
+	hot := len(keys) >= 8 && ((huge && r.Chance(0.85)) || (hammer && r.Chance(0.3)) || r.Chance(0.04))
 	if hot {
 		// skewed workload: a handful of hot INDEXED keys whose ordinals collide
 		// modulo powers of two, queried again and again by every task (hits,
@@ -286,7 +286,11 @@ func genC11(r *Rng, tier string) *C11Scn {
 		lim.maxTasks, lim.maxUnits = r.PickI(3, 3, 4), r.PickI(6, 12, 30)
 		mix.Heavy, mix.Small = false, false
 	}
-	if hot && r.Chance(0.5) {
+	trioP := 0.5
+	if huge {
+		trioP = 0.75 // the few subjects beyond 2^16 keys of a tier mostly get the focused, exhaustively scheduled shape
+	}
+	if hot && r.Chance(trioP) {
 		// focused trio: reader warms and re-reads K1, writer 1 touches the
 		// colliding K2, writer 2 touches K1 again; same read API everywhere
 		k1, k2 := qs[0], qs[1]
